@@ -172,7 +172,10 @@ pub fn analyse(log: &[Ev]) -> Vec<SolveTrace> {
                     _ => {}
                 }
             }
-            EvKind::Clock { delta, .. } => {
+            EvKind::Clock { delta, stall, .. } => {
+                // print-span time is known to the simulator by construction; it belongs
+                // to no timer wherever the read that observes it happens to be
+                let delta = &(*delta - *stall);
                 *reads_per_thread.entry(th).or_insert(0) += 1;
                 let Some((sid, _)) = current.get(&th).copied() else {
                     continue;
